@@ -45,6 +45,18 @@ def parse_routes(cell, w, vw):
         'load_hashmap': lambda: cell.begin_parse().load_hashmap(w),
         'load_maybe_ref': lambda: HashMap.parse(Builder().store_maybe_ref(cell).end_cell().begin_parse().load_maybe_ref().begin_parse(), w),
     }
+    # a peek does not consume: peek twice, then load, on a slice that holds another reference after the dictionary
+    def peeks(which):
+        other = Builder().store_uint(0xABCD, 16).end_cell()
+        sl = Builder().store_uint(165, 8).store_dict(cell).store_ref(other).end_cell().begin_parse()
+        sl.load_uint(8)
+        first = sl.preload_dict(w)
+        second = sl.preload_dict(w)
+        loaded = sl.load_dict(w)
+        return {'first': first, 'second': second, 'loaded': loaded}[which]
+    routes['preload_first'] = lambda: peeks('first')
+    routes['preload_second'] = lambda: peeks('second')
+    routes['load_after_preloads'] = lambda: peeks('loaded')
     for via, f in routes.items():
         try:
             out.append({'via': via, 'pairs': norm(f())})
